@@ -403,6 +403,9 @@ def digest_state(state, spec):
         "dsHost": sorted([un_h(h)] + un_ds(ds) + [sname.get(s, str(s))] for ds, m in state.ds2host.items() for h, s in m.items()),
         "workerDs": sorted(un_w(w) + un_ds(ds) + [sname.get(s, str(s))] for w, m in state.worker2ds.items() for ds, s in m.items()),
         "remaining": state.remaining,
+        # the record from which completion is detected (notices of ALL outputs processed); absent on a tree without the
+        # repair of notify.py: the comparison with the model's `published` then reports the divergence
+        "published": sorted(un_ds(DatasetId(t, o)) for t, outs in getattr(state, "published_outputs", {}).items() for o in outs),
     }
     # ds2worker must mirror worker2ds
     mirror = sorted(un_w(w) + un_ds(ds) + [sname.get(s, str(s))] for ds, m in state.ds2worker.items() for w, s in m.items())
@@ -433,7 +436,7 @@ def canon_model_sch(m):
 
 def canon_model_ctl(m):
     m = dict(m)
-    for k in ("idle", "ongoing", "purgeQ", "fetchIssued", "outputs", "hostDs", "dsHost", "workerDs", "computable"):
+    for k in ("idle", "ongoing", "purgeQ", "fetchIssued", "outputs", "hostDs", "dsHost", "workerDs", "computable", "published"):
         m[k] = sorted(m[k])
     m["tracker"] = sorted([t, sorted(s)] for t, s in m["tracker"])
     m["ptrack"] = sorted([d, sorted(s)] for d, s in m["ptrack"])
@@ -650,10 +653,6 @@ def compare(trace, model_out, fifo=False):
             return {"at": i, "op": op, "field": "State", "model": "state abstraction defined", "impl": "real State not readable by the harness: " + impl["unobservable"]}
         if not m.get("enabled", True):
             return {"at": i, "op": {k: v for k, v in x.items() if k != "impl"}, "model": "step not enabled", "impl": "performed"}
-        if op == "deliver" and fifo and m.get("fifoStep") is False:
-            # the hypothesis of the FIFO-tier theorems (per-producer order, `fifoStep`) must cover what a FIFO executor does
-            return {"at": i, "op": {k: v for k, v in x.items() if k != "impl"}, "field": "fifoStep",
-                    "model": "batch is not a per-task prefix of the pending notices", "impl": "delivered by the FIFO executors"}
         if op == "round" and x.get("final"):
             if m.get("phase") != "finished":
                 return {"at": i, "op": "loop-exit", "model": {"phase": m.get("phase"), "err": m.get("err")}, "impl": "run() returned"}
